@@ -230,7 +230,7 @@ def run(ctx, rep):
                         ((":" if cfg.d["hhFile"] else "") + str(h["new"][0]) if cfg.d["hhLineNumber"] else "") + ":"
                     rep.count("hh-row-checked:" + ("deleted" if f["new"] == "/dev/null" else "renamed" if f["old"] not in (f["new"], "/dev/null") else "same-name"))
                     if not squeeze(t + " ").startswith(squeeze(want_prefix + " ")[:-1] if want_prefix.endswith(" ") else squeeze(want_prefix)):
-                        shown_other = [g for g in files if g is not f and g.get("new") and cfg.d["hhFile"] and
+                        shown_other = [g for g in files if g is not f and g.get("new") and g["new"] != path and cfg.d["hhFile"] and
                                        squeeze(t).startswith(squeeze((cfg.d["hunkLabel"] + " " if cfg.d["hunkLabel"] else "") + g["new"] + ":"))]
                         rep.violation("hunk-header:path-of-other-section" if shown_other else "hunk-header:path-or-number-wrong",
                                       f"hunk header {t!r} of section {f['kind']} ({f['old']!r} -> {f['new']!r}, {h['header']!r}) does not start with {want_prefix!r}", case)
